@@ -937,4 +937,137 @@ theorem default_fitter_dispatch {Args Res : Type} (fitters : Fitter → Model K 
 
 end classes3
 
+/-! ## reuse sessions (round 4): nothing survives a call
+
+One model / data / `sigma_k` object is fitted and asked for predictions several times in
+succession.  `Rsa.Fit.runSession` runs a list of steps through the model with an explicit state:
+the content of the objects plus whatever the modules or objects keep on the side.  A call consults
+and updates that side state exactly when today's source has a place to keep it, and scribbles into
+its arguments exactly when today's source has a statement that can do so (leaves `moduleState`,
+`inputWrites`, counted from `model/fitter.py`, `util/pooling.py`, the `predict` / `predict_rdm` /
+`fit` methods of `model/model.py`, `_parse_nan_vectors`, `get_v`, `RDMs.get_vectors` /
+`subsample_pattern` / `__getitem__` / `copy` on every run).  An in-place edit or a cache therefore
+breaks `inputs_not_written` / `no_module_state`, and with them everything below. -/
+
+section sessions
+variable {K σ : Type} [Field K] [LinearOrder K] [IsStrictOrderedRing K] [HasSqrt K]
+
+/-- today's fitters, poolings, predictions and RDM accessors contain no statement that stores into
+    (a view of) an argument or into `self` (leaf `inputWrites`) -/
+theorem inputs_not_written : Rsa.Gen.C08.inputWrites = 0 := by decide
+
+/-- … and no place to keep something between calls: no module-level statement besides imports and
+    definitions, no class-level attribute, no `global` / `nonlocal`, no decorator, no mutable
+    default, no store through a name that is not local to the call (leaf `moduleState`) -/
+theorem no_module_state : Rsa.Gen.C08.moduleState = 0 := by decide
+
+/-- one call, whatever a write statement or a cache *would* do (`h` arbitrary): the value is that of
+    the stand-alone call on the current content; content and side state are left as they were -/
+theorem call_stateless (h : Hidden σ K) (c : FitCall K) (st : σ × FitArgs K) :
+    stepCall h c st = (c.value st.2, st) := by
+  unfold stepCall
+  rw [if_pos no_module_state, if_pos no_module_state, if_pos inputs_not_written]
+
+/-- **reuse sessions**: any list of calls and caller edits, run in one process on the same objects
+    from any side state: every call returns exactly what the stand-alone call returns on the
+    content the caller has established at that moment (`specSession`), the side state ends as it
+    began and the objects hold what the caller's own edits put there — induction over the steps -/
+theorem session_calls_independent (h : Hidden σ K) (steps : List (FitStep K)) (s0 : σ)
+    (a0 : FitArgs K) :
+    runSession h steps (s0, a0) = ((specSession steps a0).1, (s0, (specSession steps a0).2)) := by
+  induction steps generalizing a0 with
+  | nil => rfl
+  | cons st rest ih =>
+    cases st with
+    | call c => simp only [runSession, specSession, call_stateless, ih]
+    | edit f => simp only [runSession, specSession, ih]
+
+/-- without caller edits: every call of the session has the value of the stand-alone call on the
+    ORIGINAL content, and the content is unchanged at the end -/
+theorem session_calls_only (h : Hidden σ K) (calls : List (FitCall K)) (s0 : σ) (a0 : FitArgs K) :
+    runSession h (calls.map FitStep.call) (s0, a0) = (calls.map (fun c => c.value a0), (s0, a0)) := by
+  rw [session_calls_independent]
+  have : ∀ cs : List (FitCall K), specSession (cs.map FitStep.call) a0
+      = (cs.map (fun c => c.value a0), a0) := by
+    intro cs
+    induction cs with
+    | nil => rfl
+    | cons c cs ih => simp only [List.map_cons, specSession, ih]
+  rw [this]
+
+theorem specSession_append (pre post : List (FitStep K)) (a : FitArgs K) :
+    specSession (pre ++ post) a
+      = ((specSession pre a).1 ++ (specSession post (specSession pre a).2).1,
+         (specSession post (specSession pre a).2).2) := by
+  induction pre generalizing a with
+  | nil => rfl
+  | cons st rest ih =>
+    cases st with
+    | call c => simp only [List.cons_append, specSession, ih]
+    | edit f => simp only [List.cons_append, specSession, ih]
+
+/-- **every fit of a session is judged by its own moment.**  Whatever `good c a r` says about a
+    stand-alone call (`r` is a maximiser of the criterion of call `c` on content `a` within the
+    constraints — the optimality theorems above), if every stand-alone call has it, then the call
+    `c` placed anywhere in a session (after any earlier calls with other criteria and fitters on
+    the same objects, and any caller edits `pre`) returns a result that has it for the content the
+    caller established — not for what an earlier call left behind -/
+theorem session_call_good (good : FitCall K → FitArgs K → FitRes K → Prop)
+    (hgood : ∀ c a, good c a (c.value a))
+    (h : Hidden σ K) (pre post : List (FitStep K)) (c : FitCall K) (s0 : σ) (a0 : FitArgs K) :
+    ∃ r, (runSession h (pre ++ FitStep.call c :: post) (s0, a0)).1
+        = (specSession pre a0).1 ++ r :: (specSession post (specSession pre a0).2).1 ∧
+      good c (specSession pre a0).2 r := by
+  refine ⟨c.value (specSession pre a0).2, ?_, hgood _ _⟩
+  rw [session_calls_independent, specSession_append]
+  simp only [specSession]
+
+/-- a prediction asked for twice with the same parameters in a session (with any fits in between)
+    is the same both times, and for admissible parameters the vector form (`predict`) and the
+    RDM-object form (`predict_rdm`) of the same session agree -/
+theorem session_predictions_agree (h : Hidden σ K) (mid : List (FitCall K)) (slot : ℕ)
+    (p : Param K) (s0 : σ) (a0 : FitArgs K) (M : Model K) (hM : a0.models[slot]? = some M)
+    (hadm : Admissible M p) :
+    ∃ v, (runSession h ((FitCall.predict slot p :: mid ++
+              [FitCall.predictRdm slot p, FitCall.predict slot p]).map FitStep.call) (s0, a0)).1
+        = FitRes.vec (some v) :: mid.map (fun c => c.value a0)
+            ++ [FitRes.rdm ((Rsa.Fit.predictRdm M p)), FitRes.vec (some v)] ∧
+      (Rsa.Fit.predictRdm M p).map (fun r => r.1) = some [v] := by
+  obtain ⟨v, hv, hr⟩ := predict_eq_predict_rdm M p hadm
+  refine ⟨v, ?_, hr⟩
+  rw [session_calls_only]
+  simp [FitCall.value, hM, hv]
+
+end sessions
+
+section sessionExamples
+
+/-- a weighted model of two RDMs over three conditions, data of two RDMs -/
+def exArgs : FitArgs ℚ :=
+  { models := [mkModel .weighted "m" 3 [[1, 2, 3], [0, 1, 4]] [("cond", [5, 7, 9])],
+               mkModel .weighted "m" 3 [[3, 1, 1], [2, 0, 5]] [("cond", [5, 7, 9])]],
+    present := [true, true, true], desc := [5, 7, 9],
+    data := [[some 1, some 3, some 7], [some 2, some 2, some 9]], sigma := .none }
+
+local instance : HasSqrt ℚ := ⟨fun x => x⟩
+
+/-- a "tree with hidden state": the side state counts calls, a stale view zeroes the data, the
+    write statements would overwrite the first model — none of it can happen -/
+def exHidden : Hidden ℕ ℚ :=
+  { stale := fun _ a => { a with data := [] }, remember := fun n _ => n + 1,
+    scribble := fun a => { a with models := a.models.drop 1 } }
+
+-- `session_calls_independent` on a concrete session: predict – (caller writes new data) – predict
+-- on the other model of the same name: each value is the stand-alone value
+example : (runSession exHidden
+      [.call (.predict 0 (.vec [1, 2])), .edit (fun a => { a with data := [[some 1, some 1, some 1]] }),
+       .call (.predict 1 (.vec [1, 2]))] (0, exArgs)).1
+    = [.vec (some [1, 4, 11]), .vec (some [7, 1, 11])] := by
+  rw [session_calls_independent]; decide +kernel
+
+example := session_predictions_agree (K := ℚ) exHidden [.predict 1 .none] 0 (.vec [1, 2]) 0 exArgs
+  (mkModel .weighted "m" 3 [[1, 2, 3], [0, 1, 4]] [("cond", [5, 7, 9])]) rfl
+
+end sessionExamples
+
 end Rsa.Props.C08
